@@ -4,7 +4,10 @@ Model: spec/Scopes.tla (FunctionScope + what the visitor issues per statement), 
 (collecting semantics, strict and liberal), generator spec/ScopeGen.tla.  Every skeleton TLC builds is
 rendered to a Python function, checked by the real visitor (diagnostics + annotated inferred values
 give the set of definitions pyanalyze considers able to reach each use) and TLC adjudicates the real
-report against the oracle (ScopesTrace.tla).
+report against the oracle (ScopesTrace.tla).  Second observable on the same state: the unused_variable /
+unused_assignment reports per binding (a binding that reaches a use on a strict path must not be reported).
+Bindings without a literal value (imports, `as` targets, loop targets, walrus, captures) are observed on the
+function scope's usage_to_definition_nodes itself (mode "nodes").
 """
 from __future__ import annotations
 
@@ -598,7 +601,8 @@ def run(check: core.Check) -> None:
                               check=check)
     judge(check, sim, "tlc-simulate")
     check.assumptions.append(
-        "C09 domain: no dead code after return/raise/break/continue in a block; `del` is not generated (pyanalyze treats `del x` as a "
+        "C09 domain: no dead code after return/raise/break/continue in a block (and, in the slices loopcont / binders / inner / "
+        "match, after a compound statement that cannot complete normally: ScopeGen!DeadTail); `del` is not generated (pyanalyze treats `del x` as a "
         "read, _is_read_ctx); `global` is not generated (module variables are flow-insensitive by design); a class body READING a "
         "function variable is not generated (resolved without node context, flow-insensitively, by design); match subjects are "
         "calls (no narrowing of a subject variable: that is C02's matter). Bindings without a literal value are observed on FunctionScope.usage_to_definition_nodes "
